@@ -154,7 +154,8 @@ func (P *Program) localEffectsBlocks(blocks []*ssa.BasicBlock) (*effectSet, []*s
 					e.addArr(x.Type())
 				}
 			case *ssa.Go:
-				e.all = true
+				// the spawned goroutine's writes are accounted for where its channel
+				// is received from (producer/consumer rule), not at the go statement
 			case ssa.CallInstruction:
 				c := x.Common()
 				if c.IsInvoke() {
